@@ -23,6 +23,9 @@ _ACTIVE = [False]
 _COND = {"n": 0, "cap": 3}
 COND_RE = re.compile(r"^not ?\(\$c\)$")
 
+# optional predicate evaluated on every state reached (C09 uses the C12 grammar as a host): state -> [(sig, what)]
+STATE_HOOK = [None]
+
 _prop = FlowHead.__dict__["position"]
 _installed = [False]
 
@@ -218,6 +221,10 @@ def explore_dynamic(state, cfgs, depth, max_steps=300, budget=3000):
                     moves = list(LOG)
                     nviol = len(out)
                     counts["dyn_moves"] += check_moves(moves, cfgs, out, covered, counts)
+                    if STATE_HOOK[0] is not None:
+                        counts["hook_states"] = counts.get("hook_states", 0) + 1
+                        for sig, what in STATE_HOOK[0](s2):
+                            out.append({"signature": "HOOK/" + sig, "what": what, "detail": {"flow": None}})
                     h2 = hist + ((aev, tuple(taken)),)
                     for v in out[nviol:]:
                         v["history"] = [[list(a), list(t)] for a, t in h2]
